@@ -12843,6 +12843,13 @@ let inflate0 =
     litBlockLength = N0; headerBuffered = N0; headerBuffer = []; dyn = dyn0;
     roffset = Z0 }
 
+(** val inflate_reset : inflate -> inflate **)
+
+let inflate_reset s =
+  { rd = br0; inputNil = true; ov = ov0; tb = s.tb; phase = N0; bfinal = N0;
+    litBlockLength = N0; headerBuffered = N0; headerBuffer = []; dyn = s.dyn;
+    roffset = Z0 }
+
 (** val br_set_bits : bitrd -> n -> bitrd **)
 
 let br_set_bits b v =
@@ -15420,3 +15427,61 @@ let erun_obs bufsize chunks0 term_is_err reads =
   ((frev
      (fold_left (fun acc br -> ((fst br), (rres_code (snd br))) :: acc) l [])),
   c)
+
+(** val mkbufrd : n -> n list list -> terminal -> bufrd **)
+
+let mkbufrd bufsize cs t0 =
+  { bsize = (N.max bufsize (Npos (XO (XO (XO (XO XH)))))); bbuf = []; blen =
+    N0; berr = None; chunks = cs; term = t0; consumed = N0 }
+
+(** val dReset : decompressor -> bufrd -> decompressor **)
+
+let dReset f rb =
+  { state = (inflate_reset f.state); writePos = N0; readPos = N0; hist =
+    f.hist; rBuf = rb; derr = None; peekSize = N0; eof = false; haveBits =
+    false }
+
+(** val eread_all :
+    decompressor -> n list -> (n list * rres) list -> (n list * rres)
+    list * decompressor **)
+
+let rec eread_all f reads acc =
+  match reads with
+  | [] -> ((frev acc), f)
+  | p :: rest ->
+    let (p0, r) = dRead f p in
+    let (f0, bytes) = p0 in eread_all f0 rest ((bytes, r) :: acc)
+
+(** val erun2 :
+    n -> n list list -> terminal -> n list -> n -> n list list -> terminal ->
+    n list -> ((n list * rres) list * (n list * rres) list) * n **)
+
+let erun2 bufsize1 chunks1 term1 reads1 bufsize2 chunks2 term2 reads2 =
+  let (l1, f1) = eread_all (newReader bufsize1 chunks1 term1) reads1 [] in
+  let (l2, f2) =
+    erun_loop (dReset f1 (mkbufrd bufsize2 chunks2 term2)) reads2 []
+  in
+  ((l1, l2), f2.rBuf.consumed)
+
+(** val obs_codes : (n list * rres) list -> (n list * n) list **)
+
+let obs_codes l =
+  frev
+    (fold_left (fun acc br -> ((fst br), (rres_code (snd br))) :: acc) l [])
+
+(** val term_of : bool -> terminal **)
+
+let term_of = function
+| true -> TErr
+| false -> TEOF
+
+(** val erun2_obs :
+    n -> n list list -> bool -> n list -> n -> n list list -> bool -> n list
+    -> ((n list * n) list * (n list * n) list) * n **)
+
+let erun2_obs bufsize1 chunks1 term1_is_err reads1 bufsize2 chunks2 term2_is_err reads2 =
+  let (p, c) =
+    erun2 bufsize1 chunks1 (term_of term1_is_err) reads1 bufsize2 chunks2
+      (term_of term2_is_err) reads2
+  in
+  let (l1, l2) = p in (((obs_codes l1), (obs_codes l2)), c)
